@@ -226,7 +226,9 @@ func RunChild(self string, spec *ChildSpec, specPath, crash string, yield string
 	cmd := exec.Command(self, "crashchild", specPath)
 	cmd.Env = append(os.Environ(), "GOTRACEBACK=all")
 	if crash != "" {
-		cmd.Env = append(cmd.Env, "VERIF_CRASH="+crash)
+		// a kill that lands while another goroutine is inside a write(2) to the log
+		// buffer can cut that write short: torn writes are explored by truncation (C03/C10), not here
+		cmd.Env = append(cmd.Env, "VERIF_CRASH="+crash, "VERIF_CRASH_BARRIER=wal.locked.enter>wal.locked.leave>wal.")
 	}
 	if yield != "" {
 		cmd.Env = append(cmd.Env, "VERIF_YIELD="+yield)
